@@ -80,6 +80,17 @@ CHECKS.update({
             "DESIGN.md 4/C19"),
 })
 
+CHECKS.update({
+    "C07": ("model_checking",
+            "explicit-state search over operation histories on the real process state: every history of <=D ops is replayed in a forked child, each observation executed in a grandchild forked from the reached state, compared with a fresh process",
+            "All histories of length <=3 (quick) / <=4 (thorough) over 19 operations (loads of .rules/CSV/bad/no file in both modes, a reload that rewrites a file, classifications of 5 "
+            "transactions incl. two that differ only in a custom field, engine matches, 4 cache-colliding expressions) are executed on the real module-level caches; on every "
+            "(history, observation) transition the result must equal the same observation in a fresh process that performed only the last load, and rules / supplemental rows / "
+            "caller's field dict must be unchanged. States are histories (no abstraction), so every trace is an execution of the implementation.",
+            "fresh process = fork of a worker that imported tally and never loaded or evaluated anything; depth- and alphabet-bounded",
+            "DESIGN.md 4/C07"),
+})
+
 NOT_YET = {}
 
 PROPS = [json.loads(l)["id"] for l in open(os.path.join(ROOT, "properties.jsonl"))]
